@@ -43,7 +43,14 @@ LEVEL_TEXT = ("Lean theorems over the model of buffer_geometry: for time stamps,
               "widths of the original and its bounds extend by rho buffers or reach the domain edge (if GEOS's buffer contains "
               "the rho-disc around every input point), and - for the exact unit buffer - that the result is exactly the "
               "elliptical neighbourhood inside the domain and that larger buffers give supersets except a zero buffer against "
-              "a positive one below 1e-9 (proved to fail; a known finding).  The property stays PARTIAL for these six types: "
+              "a positive one below 1e-9 (proved to fail; a known finding).  The bounds are also derived side by side "
+              "(C11_pipeline_bounds_extend_sides) from one probe point per side in GEOS's buffer, so that a side whose extreme "
+              "no open line end attains or comes near (offCap; C11_offcap_vertex, C11_offcap_all) is judged up to offset-curve "
+              "noise (1e-5 of the buffer) and only sides at an open line end with the round-cap allowance.  How the two buffers "
+              "bind for every way of writing the call (positional, keyword in either order, mixed, omitted) is proved of the "
+              "signature table (C11_call_binding, C11_signature_table; the table is regenerated from inspect.signature on each "
+              "run), and a session of calls is the list of its calls' models whatever options for shapely.buffer earlier calls "
+              "carried (C11_history_stepwise, C11_closed_ignores_options).  The property stays PARTIAL for these six types: "
               "GEOS's buffer itself is not modelled; its contracts are evaluated on GEOS's actual output in every run, and "
               "validator, bounds post-condition (C11_shapely_partial), containment and superset are monitored on the result.")
 LEVEL_NOTE = ("Trusted: Lean kernel, symbolic tracer (ordered-field semantics; the nine geometry classes replaced by stubs that "
@@ -53,33 +60,58 @@ LEVEL_NOTE = ("Trusted: Lean kernel, symbolic tracer (ordered-field semantics; t
               "simplification) and clip_by_rect as polygon algorithms, binary64 rounding inside the pipeline: the theorems "
               "assume `Extensive`, `CoversDisc rho`, `IsMaxTime`, evaluated per call on what GEOS returned (rho = 0.98 at probe "
               "points around the vertices) for inputs outside the known-finding classes; containment / superset by shapely "
-              "`covers` (an oracle outside Lean); six classes of failures of the pipeline are recorded as known findings.  "
+              "`covers` (an oracle outside Lean, applied to geometries shapely builds from the JSON coordinates, not to "
+              "soundevent's converters); the probe hypotheses of C11_pipeline_bounds_extend_sides are evaluated at rho = "
+              "1 - 2e-5 / 0.995 on GEOS's buffer; six classes of failures of the pipeline are recorded as known findings (the "
+              "round-cap one now only for sides at an open line end).  Histories are sequences of calls in one process judged "
+              "call by call; a failing history is re-run in a fresh process before it is reported.  "
               "Binary64 rounding of `t - tb`, `h + fb` off the dyadic grid (round-once comparison there).  Model tied to the "
               "code by regenerated obligations, observed calls into shapely and generator-bounded correspondence.")
 TECHNIQUE = ("Lean 4 proof over model; symbolic-trace equality obligations regenerated from source (closed forms, dispatch, "
-             "pipeline skeleton); exhaustive-grid correspondence at the domain edges; observed shapely calls compared with the "
-             "model; Lean-evaluated post-conditions and run-time GEOS contracts on real results")
+             "pipeline skeleton); signature table regenerated by introspection; exhaustive-grid correspondence at the domain "
+             "edges and around every comparison; observed shapely calls compared with the model; Lean-evaluated post-conditions "
+             "and run-time GEOS contracts on real results; call histories judged step by step by the pure model")
 RULE = ("time stamps / intervals / boxes on exhaustive small grids touching time 0, frequency 0 and MAX_FREQUENCY x buffers "
         "{negative, 0, small, clamping, larger than the domain}, random dyadic and arbitrary-float cases; the six shapely-"
         "buffered types (random, special, domain-edge) x buffer pairs over six decades of buffer/extent, zero buffers, buffers "
         "down to 1e-7; buffers passed as float, int or numpy scalar; every call preceded by a call on the same object with "
-        "other buffers and followed by a repeat (purity); non-trivial = buffer_geometry returned a geometry; distinct = "
-        "distinct (operation, input)")
+        "other buffers and followed by a repeat (purity); buffers -d, 0, +d (d = 2^-40 .. 5e-324) on all nine types and "
+        "start - tb, low - fb, high + fb within 2^-20 .. 2^-40 of 0 / MAX_FREQUENCY at magnitudes 1 .. 1e7; every point of the "
+        "0.01 s / 0.1 Hz buffer lattices; dense geometries with 16 .. 2000 vertices (each size threshold +-1) x seven smooth "
+        "shapes; nine types x call shapes (keyword, positional, reversed keywords, mixed, zero buffers omitted) x number "
+        "representations (float, int, numpy float64 / float32 / int64, bool) x twelve construction paths (validator, "
+        "constructor, model_validate, JSON, copies, tuples, ints, numpy coordinates, subclass); histories: a call with an "
+        "option for shapely.buffer followed by plain calls (8 options x 6 target types), and random sessions x, neighbour of x "
+        "(other buffers / zero buffer / options / other call shape / other geometry), x again with reused argument objects "
+        "(assignment, model_copy(update), in-place edit, copy + assignment), poisoned results and earlier results re-read at "
+        "the end; non-trivial = buffer_geometry returned a geometry; distinct = distinct (operation, input)")
 TRUSTED = ["pydantic's coercion of the coordinate list before the field validators run (the validators themselves are traced)",
            "shapely `covers` / `difference` / `distance` / `contains_xy` as the containment, superset and disc-contract oracle",
            "symbolic tracer stubs: data.<Geometry> -> record of the (validated) symbolic coordinates; geometry_to_shapely + "
            "buffer_shapely_geometry -> marker carrying the two buffers (dispatch trace); shapely.transform / buffer / "
            "clip_by_rect / to_geojson, json.loads -> stand-ins acting on a generic point and a bounding box (pipeline trace; "
            "a coordinate map is applied to the box corners, right for the increasing maps C11_pipeline_scaling proves them to be)",
-           "the spy around the `shapely` module seen by soundevent.geometry.operations (forwards every call unchanged)"]
+           "the spy around the `shapely` module seen by soundevent.geometry.operations (forwards every call unchanged)",
+           "during the dispatch traces symbolic numbers are hashable, `json.dumps` serialises them as their terms and the "
+           "module-level containers of operations.py are put back before every replay (a trace describes a call in a fresh "
+           "process; later calls are the business of the purity monitors and the histories)",
+           "shapely.geometry.shape / box as the constructor of the oracle geometries from JSON coordinates",
+           "the fresh Python process in which a failing history is re-run (harness/c11_fresh.py)"]
 ASSUMPTIONS = ["binary64 arithmetic is exact on the dyadic grids used",
                "ordered-field semantics for the symbolic ties (no rounding)",
                "hypotheses of C11_shapely_partial (result is a Polygon / MultiPolygon, passes the validator, its bounds satisfy "
                "bufferPost) are evaluated in Lean on every observed result of the pipeline",
                "hypotheses of the C11_pipeline_* theorems about GEOS's buffer (Extensive, CoversDisc 49/50 at 32 probe "
                "directions around up to 8 vertices, IsMaxTime) are evaluated on GEOS's output in every observed call with "
-               "positive buffers, no exact line reversal, buffer/extent < 1e4"]
+               "positive buffers, no exact line reversal, buffer/extent < 1e4",
+               "hypotheses p1..p4 of C11_pipeline_bounds_extend_sides (GEOS's buffer contains the point rho beyond a vertex "
+               "attaining each side's extreme, rho = 1 - 2e-5 where offCap holds, 0.995 otherwise) are evaluated in the same calls",
+               "GEOS's offset curves deviate from the exact mitre outline by at most 1e-5 of the distance away from open line "
+               "ends (observed <= 4e-7; its vertex snapping factor is 1e-6)"]
 NOT_COMPARED = ["error messages (only the error class)",
+                "what a call with extra options for shapely.buffer returns on the six pipeline types (the caller's choice; some "
+                "options are refused with TypeError) beyond: a returned geometry is valid, the argument is untouched, later "
+                "calls are unaffected",
                 "the vertices of the polygon the shapely pipeline returns (only validator, bounds, containment, superset)",
                 "OGC validity of the returned polygon",
                 "cap / join style and the margin added to max_time in the clip rectangle (only that it is >= 0)",
@@ -1755,6 +1787,15 @@ def closed_boundary_cases():
                 yield _case(_g("BoundingBox", [1, a, 2, M - a]), 1, fb)       # both edges at once
                 yield _case(_g("BoundingBox", [1, a, 2, a]), 0, fb)
                 yield _case(_g("BoundingBox", [0, M - a, 0, M - a]), 0, fb)
+    # interplay: a geometry starting at (or a hair after) time 0 x tiny / small time buffers x zero / tiny / unit
+    # frequency buffers -- every combination, for the three closed types
+    for s0 in (0, Fraction(1, 1 << 41), Fraction(1, 1 << 21)):
+        for tb in (Fraction(1, 1 << 40), Fraction(1, 1 << 20), Fraction(1, 1 << 11), Fraction(1, 2)):
+            for fb in (0, Fraction(1, 1 << 28), 1):
+                yield _case(_g("TimeStamp", s0), tb, fb)
+                yield _case(_g("TimeInterval", [s0, s0 + 1]), tb, fb)
+                yield _case(_g("BoundingBox", [s0, Fraction(1, 1 << 29), s0 + 1, 20]), tb, fb)
+                yield _case(_g("BoundingBox", [s0, 0, s0, M]), tb, fb)
     # degenerate boxes / intervals sitting on the edges, buffers equal to the whole domain
     for g in (_g("BoundingBox", [0, 0, 0, 0]), _g("BoundingBox", [0, M, 0, M]), _g("BoundingBox", [0, 0, 0, M]),
               _g("TimeInterval", [0, 0]), _g("TimeStamp", 0)):
@@ -1781,7 +1822,7 @@ _VARIANT_GEOMS = {
 _NUM_VALUES = {"float": [(Fraction(3, 8), Fraction(5, 2)), (0, Fraction(5, 2)), (Fraction(3, 8), 0)],
                "np64": [(Fraction(3, 8), Fraction(5, 2)), (0, Fraction(1, 2)), (Fraction(7, 4), 0)],
                "np32": [(Fraction(1, 2), Fraction(3, 4)), (0, Fraction(3, 4)), (Fraction(1, 2), 0)],
-               "int": [(2, 3), (0, 5), (2, 0)], "npint": [(2, 3), (0, 5), (2, 0)], "bool": [(1, 1), (0, 1), (1, 0)]}
+               "int": [(3, 5), (0, 7), (3, 0)], "npint": [(3, 5), (0, 7), (5, 0)], "bool": [(1, 1), (0, 1), (1, 0)]}
 
 
 def variant_cases(rng, full=False):
@@ -2039,6 +2080,8 @@ def run(ctx):
 def search(ctx, failures):
     """a tie broke: the exhaustive edge grid and a wide random stream of every operation"""
     ctx.stage("search-closed", lambda: ctx.run_cases(OPS["buffer_closed"], list(closed_grid_cases())
+                                                     + [c for c in closed_boundary_cases() if c["g"]["type"] in CLOSED and not c.get("free")]
+                                                     + [c for c in variant_cases(ctx.rng) if c["g"]["type"] in CLOSED]
                                                      + list(closed_random_cases(ctx.rng, 6000))))
     ctx.stage("search-shapely", lambda: ctx.run_cases(OPS["buffer_shapely"], list(shapely_cases(ctx.rng, 900))
                                                       + list(zero_buffer_cases(ctx.rng, 120)) + list(tiny_buffer_cases(ctx.rng, 120))
